@@ -315,7 +315,7 @@ pub fn run(tier: Tier, reg: &[VT]) -> Report {
 			}
 			if !finished {
 				// the worker died (allocation abort / OOM guard): that is the violation
-				let hb = std::fs::read_dir(format!("{}/target/hb/C09", VERIF))
+				let hb = std::fs::read_dir(format!("{}/target/hb/C09", verif_root()))
 					.ok()
 					.map(|rd| rd.flatten().filter_map(|e| std::fs::read_to_string(e.path()).ok()).filter(|s| s.starts_with(types[from].name)).collect::<Vec<_>>())
 					.unwrap_or_default();
